@@ -145,9 +145,10 @@ def run(ctx):
     direct = [s for s in vecs if not s["input"]["fam"].startswith("e2e")]
     e2e = [s for s in vecs if s["input"]["fam"] == "e2e"]
     e2ept = [s for s in vecs if s["input"]["fam"] == "e2ept"]
-    e2e_all = len(e2e) + len(e2ept)
+    e2eobs = [s for s in vecs if s["input"]["fam"] == "e2eobs"]
+    e2e_all = len(e2e) + len(e2ept) + len(e2eobs)
     # a reconcile-level scenario costs 5-15 ms (two to six real reconciles): the quick tier replays a seeded sample of them
-    e2e = ctx.sample(e2e, 1200 if quick else 10 ** 9) + ctx.sample(e2ept, 1200 if quick else 10 ** 9)
+    e2e = ctx.sample(e2e, 1200 if quick else 10 ** 9) + ctx.sample(e2ept, 1200 if quick else 10 ** 9) + ctx.sample(e2eobs, 600 if quick else 10 ** 9)
     rnd = random_vectors(ctx, 6000 if quick else 80000)
     chosen = regression() + direct + e2e + rnd
     s, nlines, per_formula, info, examples, hits = drive_and_judge(ctx, chosen)
